@@ -241,6 +241,22 @@ func c16RunScenario(k *c16Child, sc c16Scen, r *Rng) {
 	var jobs []*c2.Job
 	switch sc.Moment {
 	case "idle":
+	case "offhours": // the client sits in the work-hours wait (today is not a working day) when close is issued
+		for i, s := range ss {
+			w := &cfg.WorkHours{Days: 127 &^ (1 << uint(time.Now().Weekday()))}
+			j, err := s.SetWorkHours(w)
+			if err != nil || j == nil {
+				k.fail("harness:setup", "SetWorkHours on session %d: %v", i, err)
+				return
+			}
+			// the answer may never come: the client can reach its work-hours wait before the result is
+			// queued, and then does not poll. What matters here is that the client HAS the rule.
+			if !c16Until(c16Budget, func() bool { return cs[0].WorkHours() != nil }) {
+				k.fail("harness:setup", "the work-hours order for session %d did not reach the client", i)
+				return
+			}
+		}
+		time.Sleep(5 * c16Sleep)
 	case "exchange": // a task is on its way / being answered while close is issued
 		for _, s := range ss {
 			if j, err := s.Task(&com.Packet{ID: 0xC8, Chunk: data.Chunk{}}); err == nil {
